@@ -283,7 +283,7 @@ def judge(rec, cls, ident, key, o, fn, truth, what, witness):
 
 def main(run: common.Run):
     tier = run.tier
-    n = 10 if tier == "quick" else 80
+    n = 10 if tier == "quick" else 400
     run.bounds = {"loop_programs": 3 * n + 9, "loop_option": [1, 2, 3], "reference_unrolling": 10, "solver_cap_s": 20 if tier == "quick" else 120,
                   "e2e": "K in 1..5 x loop in 1..3; width 1..4; depth 20/200; invariant depth 1..2"}
     run.functions_encoded = ["halmos.sevm.SEVM.jumpi (loop bound)", "halmos.sevm.SEVM.run (--depth)", "halmos.__main__.run_test (--width, LOOP_BOUND)",
